@@ -85,6 +85,29 @@ static std::string setup_child(long idx, long life, int ign, int code)
   return prog;
 }
 
+// A helper that is to ignore SIGTERM has done so only once it runs: wait until the kernel says so
+// (SigIgn in /proc/<pid>/status), however long the machine takes to exec it.
+static bool ignores_term(int pid)
+{
+  char path[64], line[256];
+  snprintf(path, sizeof path, "/proc/%d/status", pid);
+  for (int tries = 0; tries < 4000; tries++) {
+    FILE *f = fopen(path, "r");
+    if (!f) return false;
+    unsigned long long ign = 0;
+    bool zombie = false;
+    while (fgets(line, sizeof line, f)) {
+      if (!strncmp(line, "SigIgn:", 7)) ign = strtoull(line + 7, nullptr, 16);
+      if (!strncmp(line, "State:", 6) && strchr(line, 'Z')) zombie = true;
+    }
+    fclose(f);
+    if (ign & (1ULL << (SIGTERM - 1))) return true;
+    if (zombie) return false;
+    usleep(2500);
+  }
+  return false;
+}
+
 static long g_cur_case = -1;
 static void on_alarm(int)
 {
@@ -236,6 +259,7 @@ static void one_case(long idx)
   std::string prog = started ? setup_child(idx, life, ign, code) : g_scratch + "/no-such-program";
   std::vector<std::string> args{ prog };
   int pid = -1;
+  bool not_ready = false;
   int64_t t_begin = 0, t_started = 0, t0 = 0, t1 = 0;
   {
     reproc::process *p = new reproc::process();
@@ -250,7 +274,8 @@ static void one_case(long idx)
     }
     if (started) {
       pid = p->pid().first;
-      usleep(30000 + static_cast<useconds_t>(presleep) * 1000);  // let the helper install its SIGTERM disposition
+      usleep(30000 + static_cast<useconds_t>(presleep) * 1000);
+      if (ign && !ignores_term(pid)) not_ready = true;  // (10 s and still not there: the case is not judged)
     }
     if (moved && (idx / 8) % 2 == 1) {
       // move ASSIGNMENT onto an object that runs a child of its own (policy: kill, wait): that child must be
@@ -323,6 +348,7 @@ static void one_case(long idx)
   long dl_left_min = deadline < 0 ? -1 : deadline - static_cast<long>(t0 - t_begin);
   if (dl_left_min < 0 && deadline >= 0) dl_left_min = 0;
   Expect e = model(acts, nat_min, nat_max, ign, dl_left_min, is_default);
+  if (not_ready) e.unclear = true;
   std::vector<Sig> got;
   for (auto &s : g_sigs)
     if (s.t >= t0 - 1) got.push_back(s);
